@@ -10,10 +10,15 @@ path, `apply_columnar` = columnar path), `simd.rs` (`extract_field_f64`,
 
 Numbers are exact rationals (`Rat`): IEEE-754 rounding is *not* modelled (trusted; the tie uses
 dyadic inputs so that sum/min/max/count are exact in `f64`, and a tolerance for avg/stddev/ema).
-`F` adds the NaN that `f64` has (`nan` is absorbing for arithmetic, every comparison with it is
-false); ±∞ and −0.0 are not modelled and not generated.
+`X` are the extended reals (`±∞` and rationals), `F` adds the NaN that `f64` has, with the IEEE rules
+for arithmetic on them (`∞ − ∞ = NaN`, `∞ · 0 = NaN`, NaN absorbing, every comparison with NaN false).
+`−0.0` is an input kind (`Val.negZero`): it is observable where no arithmetic happens (`first`/`last`
+return it, `count_distinct` identifies it with `0.0` as `Value`'s `Hash`/`Eq` do); as a number it is
+`0` — the *sign of a computed zero* (`min(−0.0, 0.0)`, `−0.0·k`, …) is rounding-level detail and not
+modelled (the tie still requires all paths to return bit-identical results).
 The field of one event is a `Val`: `missing` (no such field), `nonNum t` (Null/Bool/Str/…; `t`
-identifies the value), `nan` (`Float(NaN)`), `int i`, `flt q`.
+identifies the value), `nan` (`Float(NaN)`), `inf neg` (`Float(±∞)`), `negZero` (`Float(−0.0)`),
+`int i`, `flt q`.
 -/
 namespace Varpulis.Agg
 
@@ -21,26 +26,77 @@ inductive Val
   | missing
   | nonNum (tag : Nat)
   | nan
+  | inf (neg : Bool)
+  | negZero
   | int (i : Int)
   | flt (q : Rat)
   deriving DecidableEq, Repr
 
-/-- an `f64` that is a number or NaN -/
-inductive F
-  | nan
+/-- an `f64` that is not NaN: `±∞` or a number -/
+inductive X
+  | inf (neg : Bool)
   | num (q : Rat)
   deriving DecidableEq, Repr
 
-def F.isNan : F → Bool | .nan => true | .num _ => false
+/-- an `f64`: NaN, `±∞` or a number -/
+inductive F
+  | nan
+  | inf (neg : Bool)
+  | num (q : Rat)
+  deriving DecidableEq, Repr
 
-def F.lift2 (f : Rat → Rat → Rat) : F → F → F
-  | .num a, .num b => .num (f a b)
-  | _, _ => .nan
+def X.toF : X → F
+  | .inf s => .inf s
+  | .num q => .num q
 
-instance : Add F := ⟨F.lift2 (· + ·)⟩
-instance : Sub F := ⟨F.lift2 (· - ·)⟩
-instance : Mul F := ⟨F.lift2 (· * ·)⟩
-instance : Div F := ⟨F.lift2 (· / ·)⟩
+def F.isNan : F → Bool | .nan => true | _ => false
+
+def F.neg : F → F
+  | .nan => .nan
+  | .inf s => .inf (!s)
+  | .num q => .num (-q)
+
+/-- IEEE addition on NaN / ±∞ / exact numbers -/
+def F.add : F → F → F
+  | .nan, _ => .nan
+  | _, .nan => .nan
+  | .inf s, .inf t => if s = t then .inf s else .nan
+  | .inf s, .num _ => .inf s
+  | .num _, .inf t => .inf t
+  | .num a, .num b => .num (a + b)
+
+/-- IEEE multiplication (`∞ · 0 = NaN`; a zero operand counts as `+0`) -/
+def F.mul : F → F → F
+  | .nan, _ => .nan
+  | _, .nan => .nan
+  | .inf s, .inf t => .inf (s != t)
+  | .inf s, .num b => if b = 0 then .nan else .inf (s != decide (b < 0))
+  | .num a, .inf t => if a = 0 then .nan else .inf (t != decide (a < 0))
+  | .num a, .num b => .num (a * b)
+
+/-- IEEE division. The modelled code only divides by counts `≥ 1`; a zero divisor is treated as
+`+0` with Lean's `q / 0 = 0` for `num/num` (never exercised). -/
+def F.div : F → F → F
+  | .nan, _ => .nan
+  | _, .nan => .nan
+  | .inf _, .inf _ => .nan
+  | .inf s, .num b => .inf (s != decide (b < 0))
+  | .num _, .inf _ => .num 0
+  | .num a, .num b => .num (a / b)
+
+instance : Add F := ⟨F.add⟩
+instance : Sub F := ⟨fun a b => F.add a (F.neg b)⟩
+instance : Mul F := ⟨F.mul⟩
+instance : Div F := ⟨F.div⟩
+
+/-- `<` on non-NaN values: `−∞ < q < +∞` -/
+def X.lt : X → X → Bool
+  | .inf true, .inf true => false
+  | .inf true, _ => true
+  | _, .inf true => false
+  | .inf false, _ => false
+  | .num _, .inf false => true
+  | .num a, .num b => decide (a < b)
 
 /-- aggregation result: `Value::Null`, `Value::Int`, `Value::Float`, or (first/last) the field value -/
 inductive Res
@@ -54,6 +110,8 @@ inductive Res
 def getFloat : Val → Option F
   | .int i => some (.num i)
   | .flt q => some (.num q)
+  | .negZero => some (.num 0)
+  | .inf s => some (.inf s)
   | .nan => some .nan
   | _ => none
 
@@ -63,80 +121,75 @@ def extractNaN (vs : List Val) : List F := vs.map fun v => (getFloat v).getD .na
 /-- `filter_map(|e| e.get_float(field))` -/
 def floats (vs : List Val) : List F := vs.filterMap getFloat
 
-def F.toRat? : F → Option Rat
-  | .num q => some q
+def F.toX? : F → Option X
+  | .num q => some (.num q)
+  | .inf s => some (.inf s)
   | .nan => none
 
 /-- `.filter(|v| !v.is_nan())` -/
-def nonNaN (xs : List F) : List Rat := xs.filterMap F.toRat?
+def nonNaN (xs : List F) : List X := xs.filterMap F.toX?
 
 /-- valid inputs as the row path of sum/avg and the columnar path see them (NaN-fill, then filter) -/
-def validFill (vs : List Val) : List Rat := nonNaN (extractNaN vs)
+def validFill (vs : List Val) : List X := nonNaN (extractNaN vs)
 /-- valid inputs as the shared path and `extract_field_f64_filtered` see them (filter_map, then filter) -/
-def validRefs (vs : List Val) : List Rat := nonNaN (floats vs)
+def validRefs (vs : List Val) : List X := nonNaN (floats vs)
 
-/-! ### `sum_f64` -/
+/-! ### `sum_f64` (accumulators are `f64`: a sum of `+∞` and `−∞` is NaN) -/
 
 /-- `sum_f64_scalar`: four accumulators over chunks of 4, remainder into `sum0`,
 result `sum0 + sum1 + sum2 + sum3` -/
-def sumScalarLoop : List Rat → Rat → Rat → Rat → Rat → Rat
-  | a :: b :: c :: d :: rest, s0, s1, s2, s3 => sumScalarLoop rest (s0 + a) (s1 + b) (s2 + c) (s3 + d)
-  | rem, s0, s1, s2, s3 => rem.foldl (· + ·) s0 + s1 + s2 + s3
+def sumScalarLoop : List X → F → F → F → F → F
+  | a :: b :: c :: d :: rest, s0, s1, s2, s3 =>
+    sumScalarLoop rest (s0 + a.toF) (s1 + b.toF) (s2 + c.toF) (s3 + d.toF)
+  | rem, s0, s1, s2, s3 => rem.foldl (fun s x => s + x.toF) s0 + s1 + s2 + s3
 
-def sumScalar (l : List Rat) : Rat := sumScalarLoop l 0 0 0 0
+def sumScalar (l : List X) : F := sumScalarLoop l (.num 0) (.num 0) (.num 0) (.num 0)
 
 /-- `sum_f64_avx2`: one 4-lane vector accumulator, horizontal sum `r0+r1+r2+r3`, then the
 remainder is added to the total -/
-def sumAvx2Loop : List Rat → Rat → Rat → Rat → Rat → Rat
-  | a :: b :: c :: d :: rest, s0, s1, s2, s3 => sumAvx2Loop rest (s0 + a) (s1 + b) (s2 + c) (s3 + d)
-  | rem, s0, s1, s2, s3 => rem.foldl (· + ·) (s0 + s1 + s2 + s3)
+def sumAvx2Loop : List X → F → F → F → F → F
+  | a :: b :: c :: d :: rest, s0, s1, s2, s3 =>
+    sumAvx2Loop rest (s0 + a.toF) (s1 + b.toF) (s2 + c.toF) (s3 + d.toF)
+  | rem, s0, s1, s2, s3 => rem.foldl (fun s x => s + x.toF) (s0 + s1 + s2 + s3)
 
-def sumAvx2 (l : List Rat) : Rat := sumAvx2Loop l 0 0 0 0
+def sumAvx2 (l : List X) : F := sumAvx2Loop l (.num 0) (.num 0) (.num 0) (.num 0)
 
-/-- the mathematical sum -/
+/-- the extended-real sum (NaN when both `+∞` and `−∞` occur) -/
+def sumX (l : List X) : F := l.foldr (fun x s => x.toF + s) (.num 0)
+
+/-- the mathematical sum of rationals -/
 def sum (l : List Rat) : Rat := l.foldr (· + ·) 0
 
-/-! ### `min_f64` / `max_f64` (accumulators start at ±∞: `none`) -/
+/-! ### `min_f64` / `max_f64` (accumulators start at `±∞`; the callers return `None` on `[]`) -/
 
-/-- `if v < min { min = v }` with `min = +∞` as `none` (also one lane of `_mm256_min_pd`) -/
-def minAcc (m : Option Rat) (v : Rat) : Option Rat :=
-  match m with
-  | none => some v
-  | some x => some (if v < x then v else x)
+/-- the smaller / larger of two non-NaN values -/
+def minX (a b : X) : X := if X.lt b a then b else a
+def maxX (a b : X) : X := if X.lt a b then b else a
 
-def maxAcc (m : Option Rat) (v : Rat) : Option Rat :=
-  match m with
-  | none => some v
-  | some x => some (if v > x then v else x)
+/-- scalar loop body `if v < min { min = v }` -/
+def minAcc (m v : X) : X := if X.lt v m then v else m
+def maxAcc (m v : X) : X := if X.lt m v then v else m
 
-/-- `f64::min` / `f64::max` of two accumulators (horizontal reduction) -/
-def minOpt (a b : Option Rat) : Option Rat :=
-  match a, b with
-  | none, b => b
-  | a, none => a
-  | some x, some y => some (if y < x then y else x)
+/-- one lane of `_mm256_min_pd(acc, v)` = `acc < v ? acc : v` (returns the second operand on ties) -/
+def minLane (m v : X) : X := if X.lt m v then m else v
+/-- one lane of `_mm256_max_pd(acc, v)` = `acc > v ? acc : v` -/
+def maxLane (m v : X) : X := if X.lt v m then m else v
 
-def maxOpt (a b : Option Rat) : Option Rat :=
-  match a, b with
-  | none, b => b
-  | a, none => a
-  | some x, some y => some (if y > x then y else x)
+/-- `min_f64_scalar` / `max_f64_scalar` -/
+def minScalar (l : List X) : X := l.foldl minAcc (.inf false)
+def maxScalar (l : List X) : X := l.foldl maxAcc (.inf true)
 
-/-- `min_f64_scalar` -/
-def minScalar (l : List Rat) : Option Rat := l.foldl minAcc none
-def maxScalar (l : List Rat) : Option Rat := l.foldl maxAcc none
+/-- `min_f64_avx2`: lane-wise minimum over chunks of 4, horizontal `f64::min`, then the remainder -/
+def minAvx2Loop : List X → X → X → X → X → X
+  | a :: b :: c :: d :: rest, m0, m1, m2, m3 => minAvx2Loop rest (minLane m0 a) (minLane m1 b) (minLane m2 c) (minLane m3 d)
+  | rem, m0, m1, m2, m3 => rem.foldl minAcc (minX (minX (minX m0 m1) m2) m3)
 
-/-- `min_f64_avx2`: lane-wise minimum over chunks of 4, horizontal minimum, then the remainder -/
-def minAvx2Loop : List Rat → Option Rat → Option Rat → Option Rat → Option Rat → Option Rat
-  | a :: b :: c :: d :: rest, m0, m1, m2, m3 => minAvx2Loop rest (minAcc m0 a) (minAcc m1 b) (minAcc m2 c) (minAcc m3 d)
-  | rem, m0, m1, m2, m3 => rem.foldl minAcc (minOpt (minOpt (minOpt m0 m1) m2) m3)
+def maxAvx2Loop : List X → X → X → X → X → X
+  | a :: b :: c :: d :: rest, m0, m1, m2, m3 => maxAvx2Loop rest (maxLane m0 a) (maxLane m1 b) (maxLane m2 c) (maxLane m3 d)
+  | rem, m0, m1, m2, m3 => rem.foldl maxAcc (maxX (maxX (maxX m0 m1) m2) m3)
 
-def maxAvx2Loop : List Rat → Option Rat → Option Rat → Option Rat → Option Rat → Option Rat
-  | a :: b :: c :: d :: rest, m0, m1, m2, m3 => maxAvx2Loop rest (maxAcc m0 a) (maxAcc m1 b) (maxAcc m2 c) (maxAcc m3 d)
-  | rem, m0, m1, m2, m3 => rem.foldl maxAcc (maxOpt (maxOpt (maxOpt m0 m1) m2) m3)
-
-def minAvx2 (l : List Rat) : Option Rat := minAvx2Loop l none none none none
-def maxAvx2 (l : List Rat) : Option Rat := maxAvx2Loop l none none none none
+def minAvx2 (l : List X) : X := minAvx2Loop l (.inf false) (.inf false) (.inf false) (.inf false)
+def maxAvx2 (l : List X) : X := maxAvx2Loop l (.inf true) (.inf true) (.inf true) (.inf true)
 
 /-! ### Welford (`StdDev`) and `Ema`, over `F` because these loops do *not* filter NaN -/
 
@@ -172,13 +225,11 @@ inductive Func
 inductive Path | row | shared | columnar
   deriving DecidableEq, Repr
 
-def optRes (o : Option Rat) : Res := match o with | some q => .flt (.num q) | none => .null
+def avgOf (valid : List X) : Res :=
+  if valid.isEmpty then .null else .flt (sumAvx2 valid / F.num (valid.length : Nat))
 
-def avgOf (valid : List Rat) : Res :=
-  if valid.isEmpty then .null else .flt (.num (sumAvx2 valid / (valid.length : Nat)))
-
-def minOf (valid : List Rat) : Res := if valid.isEmpty then .null else optRes (minAvx2 valid)
-def maxOf (valid : List Rat) : Res := if valid.isEmpty then .null else optRes (maxAvx2 valid)
+def minOf (valid : List X) : Res := if valid.isEmpty then .null else .flt (minAvx2 valid).toF
+def maxOf (valid : List X) : Res := if valid.isEmpty then .null else .flt (maxAvx2 valid).toF
 
 /-- `StdDev::apply`/`apply_refs`: the *variance* `m2/(n−1)` whose square root the code returns
 (`Rat` has no square root; the driver compares the square of the implementation's answer) -/
@@ -201,18 +252,24 @@ def pickVal (o : Option Val) : Res :=
   | some v => .val v
   | none => .null
 
-/-- `CountDistinct`: the set of hashes of the present values (hash = injective on values, trusted) -/
+/-- `Value`'s `Hash`/`Eq` identify `−0.0` with `0.0` (and all NaNs with each other) -/
+def Val.key : Val → Val
+  | .negZero => .flt 0
+  | v => v
+
+/-- `CountDistinct`: the set of hashes of the present values (hash = injective on values up to
+`Value`'s equality, trusted) -/
 def distinctSeen (vs : List Val) : List Val :=
-  vs.foldl (fun seen v => if v == .missing || seen.contains v then seen else seen ++ [v]) []
+  (vs.map Val.key).foldl (fun seen v => if v == .missing || seen.contains v then seen else seen ++ [v]) []
 
 /-- every `AggregateFunc` on every path. `Count`, `Sum`, `Avg`, `Min`, `Max` override all three
 methods; the others inherit `apply_columnar → apply_shared → apply_refs`. -/
 def apply (f : Func) (p : Path) (vs : List Val) : Res :=
   match f, p with
   | .count, _ => .int vs.length
-  | .sum, .row => .flt (.num (sumAvx2 (validFill vs)))
-  | .sum, .shared => .flt (.num (sumAvx2 (validRefs vs)))
-  | .sum, .columnar => .flt (.num (sumAvx2 (validFill vs)))
+  | .sum, .row => .flt (sumAvx2 (validFill vs))
+  | .sum, .shared => .flt (sumAvx2 (validRefs vs))
+  | .sum, .columnar => .flt (sumAvx2 (validFill vs))
   | .avg, .row => avgOf (validFill vs)
   | .avg, .shared => avgOf (validRefs vs)
   | .avg, .columnar => avgOf (validFill vs)
@@ -230,13 +287,27 @@ def apply (f : Func) (p : Path) (vs : List Val) : Res :=
 
 /-! ### Specification (the documented mathematical values) -/
 
+def Val.validX? : Val → Option X
+  | .int i => some (.num (i : Rat))
+  | .flt q => some (.num q)
+  | .negZero => some (.num 0)
+  | .inf s => some (.inf s)
+  | _ => none
+
+/-- the numeric, non-NaN values of the field (`±∞` included), in event order -/
+def validX (vs : List Val) : List X := vs.filterMap Val.validX?
+
 def Val.valid? : Val → Option Rat
   | .int i => some (i : Rat)
   | .flt q => some q
+  | .negZero => some 0
   | _ => none
 
-/-- the numeric, non-NaN values of the field, in event order -/
+/-- the finite numeric values of the field, in event order -/
 def valid (vs : List Val) : List Rat := vs.filterMap Val.valid?
+
+/-- no NaN and no `±∞` among the field values -/
+def finiteOnly (vs : List Val) : Prop := Val.nan ∉ vs ∧ ∀ s, Val.inf s ∉ vs
 
 /-- the numeric values including NaN (what `stddev` and `ema` iterate over) -/
 def numeric (vs : List Val) : List F := floats vs
